@@ -331,6 +331,7 @@ class Sym:
                         self.newtypes.add(short_adt(a_["path"]))
         except Exception:
             self.newtypes = set()
+        self.before = {}                  # mcall term -> values its `&mut` places held when the call was made
         self.tsubst = []                  # stack of {generic parameter name: concrete type} of the helpers being inlined
         self.loops = {}       # id(loop node) -> dict(node, entry, paths)
         self._reserved = {}
@@ -1562,6 +1563,18 @@ class Sym:
         s.n += 1
         t = ("mcall", name, tuple(vals), s.n)
         s.effects = s.effects + (("call", name, tuple(vals), s.n),)
+        # what the mutated places held when the call was made (side table for rules that must know *which* value a `next()` was
+        # taken from - `xs.iter()` or `xs.iter().skip(1)`)
+        for i in mut_idx:
+            pl0 = self.place_of(n["args"][i], st)
+            if pl0 is not None and pl0[3] is None and pl0[0] in st.env:
+                try:
+                    cur0 = self.read_var({"id": pl0[0], "name": pl0[1]}, st)
+                    for fn0 in pl0[2]:
+                        cur0 = mk_field(cur0, fn0)
+                    self.before.setdefault(t, set()).add(cur0)
+                except Exception:
+                    pass
         # the mutated places now hold "the value after this effect"
         for i in mut_idx:
             pl = self.place_of(n["args"][i], s)
